@@ -622,7 +622,7 @@ Proof.
   induction ops as [|o r IH]; intros s s' HI Hok H; simpl in H.
   - inversion H; subst; auto.
   - inversion Hok; subst. destruct (step8 u rank s o) as [[[c tg] s1]|] eqn:Hs; try discriminate.
-    eapply IH; eauto. eapply step8_inv; eauto.
+    apply (IH s1 s'); auto. eapply step8_inv; eauto.
 Qed.
 
 (* the protected object is retrievable in every state satisfying the invariant *)
